@@ -174,6 +174,35 @@ func matrix() []*spec.Spec {
 			val(fld(5, "u", prim(spec.String)), &spec.Val{Format: "uuid"}), val(fld(6, "l", arr(prim(spec.Int))), &spec.Val{MinLen: &two}), val(fld(7, "m", mp(spec.String, prim(spec.Int))), &spec.Val{MaxLen: &five}),
 			fld(8, "pt", ref("Point")))),
 			body(obj(nil, val(fld(1, "s", prim(spec.String)), &spec.Val{MinLen: &two})))))))
+	// --- designs aimed at the runtime half (round trips, rejection before user code)
+	one, three := 1, 3
+	exMin, exMax := 2.0, 9.0
+	elemV := func(t *spec.Type, v *spec.Val) *spec.Type { t.Elem.Val = v; return t }
+	add(design("rt-validated-bodies", nil, svc("vbodies",
+		meth("str", val(body(prim(spec.String)), &spec.Val{MinLen: &two, MaxLen: &five}), val(body(prim(spec.Int)), &spec.Val{Min: &min1, Max: &max9})),
+		meth("arr", body(elemV(arr(prim(spec.String)), &spec.Val{Pattern: "^[a-z]+$"})), body(elemV(mp(spec.String, prim(spec.Int)), &spec.Val{Min: &min1}))),
+		meth("chat", nil, val(body(prim(spec.Int)), &spec.Val{Min: &min1, Max: &max9}), stream("bidi", val(body(prim(spec.String)), &spec.Val{Pattern: "^[a-z]+$"}))))))
+	add(design("rt-nested-collections", nil, svc("nested",
+		meth("m", body(obj(nil, fld(1, "grid", arr(elemV(arr(prim(spec.Int)), &spec.Val{Min: &min1, Max: &max9}))), val(fld(2, "rows", arr(val(body(arr(prim(spec.String))), &spec.Val{MinLen: &one, MaxLen: &three}).Type)), nil),
+			fld(3, "by_key", mp(spec.String, elemV(arr(prim(spec.String)), &spec.Val{MinLen: &two}))))),
+			body(obj(nil, fld(1, "grid", arr(elemV(arr(prim(spec.Int)), &spec.Val{Min: &min1, Max: &max9})))))))))
+	add(design("rt-metadata-defaults", nil, svc("mdflt",
+		meth("m", body(obj(nil, dflt(val(fld(1, "color", prim(spec.String)), &spec.Val{Enum: []any{vtree.S("red"), vtree.S("green")}}), vtree.S("red")), dflt(fld(2, "level", prim(spec.Int64)), vtree.I(5)),
+			dflt(fld(3, "in_msg", prim(spec.String)), vtree.S("dflt")), fld(4, "data", prim(spec.String)))),
+			body(obj(nil, fld(1, "data", prim(spec.String)))), metadata(spec.Loc{Attr: "color", Wire: "x-color"}, spec.Loc{Attr: "level"})))))
+	add(design("rt-exclusive-bounds", nil, svc("excl",
+		meth("both", body(obj(nil, val(fld(1, "n", prim(spec.Int)), &spec.Val{ExclMin: &exMin, ExclMax: &exMax}), val(fld(2, "f", prim(spec.Float64)), &spec.Val{ExclMin: &exMin, ExclMax: &exMax}))), nil),
+		meth("single", body(obj(nil, val(fld(1, "lo", prim(spec.Int)), &spec.Val{ExclMin: &exMin}), val(fld(2, "hi", prim(spec.UInt32)), &spec.Val{ExclMax: &exMax}))),
+			body(obj(nil, val(fld(1, "hi", prim(spec.Float32)), &spec.Val{ExclMax: &exMax})))))))
+	add(design("rt-optional-minlength", nil, svc("optlen",
+		meth("m", body(obj(nil, val(fld(1, "tags", arr(prim(spec.String))), &spec.Val{MinLen: &one}), val(fld(2, "blob", prim(spec.Bytes)), &spec.Val{MinLen: &two}), val(fld(3, "dict", mp(spec.String, prim(spec.Int))), &spec.Val{MinLen: &one}),
+			fld(4, "id", prim(spec.String)))), body(obj(nil, val(fld(1, "tags", arr(prim(spec.String))), &spec.Val{MinLen: &one})))))))
+	inner2 := utype("Leaf", obj([]string{"code"}, val(fld(1, "code", prim(spec.String)), &spec.Val{Pattern: "^[a-z]+$"}), val(fld(2, "weight", prim(spec.Float32)), &spec.Val{Min: &min1}), dflt(fld(3, "unit", prim(spec.String)), vtree.S("kg"))))
+	branch := utype("Branch", obj([]string{"leaf"}, fld(1, "leaf", ref("Leaf")), fld(2, "leaves", arr(ref("Leaf"))), fld(3, "by_name", mp(spec.String, ref("Leaf")))))
+	add(design("rt-nested-user-types", []*spec.UserType{inner2, branch}, svc("trees2",
+		meth("m", body(ref("Branch")), body(ref("Branch"))),
+		meth("up", nil, body(ref("Leaf")), stream("client", body(ref("Branch")))),
+		meth("down", body(ref("Leaf")), body(ref("Branch")), stream("server", nil)))))
 	names := utype("Names", arr(prim(spec.String)))
 	add(design("array-user-type", []*spec.UserType{names}, svc("named",
 		meth("m", body(obj(nil, fld(1, "names", ref("Names")))), body(ref("Names"))))))
